@@ -13,6 +13,7 @@ import (
 	"strings"
 	"sync"
 	"sync/atomic"
+	"syscall"
 	"time"
 
 	"github.com/RoaringBitmap/roaring"
@@ -778,6 +779,11 @@ type serverProc struct {
 
 // startServer launches `updog server` (given binary) and waits until it accepts connections.
 func startServer(r *vf.Run, bin, index string, extra []string, env []string) (*serverProc, error) {
+	return startServerWrapped(r, nil, bin, index, extra, env)
+}
+
+// startServerWrapped runs the server under a wrapper command (e.g. strace ...).
+func startServerWrapped(r *vf.Run, wrap []string, bin, index string, extra []string, env []string) (*serverProc, error) {
 	port := freePort()
 	if port == 0 {
 		return nil, fmt.Errorf("no free port")
@@ -789,6 +795,10 @@ func startServer(r *vf.Run, bin, index string, extra []string, env []string) (*s
 		return nil, err
 	}
 	args := append([]string{"server", "-l", addr, "-d", "127.0.0.1:0", "-f", index}, extra...)
+	if len(wrap) > 0 {
+		args = append(append(append([]string{}, wrap[1:]...), bin), args...)
+		bin = wrap[0]
+	}
 	cmd := newCmd(bin, args, env, lf)
 	if err := cmd.Start(); err != nil {
 		lf.Close()
@@ -808,6 +818,7 @@ func startServer(r *vf.Run, bin, index string, extra []string, env []string) (*s
 	sp.stop = func() (bool, string) {
 		was := !sp.alive()
 		if !was {
+			_ = syscall.Kill(-cmd.Process.Pid, syscall.SIGKILL)
 			_ = cmd.Process.Kill()
 			<-exited
 		}
